@@ -77,7 +77,9 @@ def mode_structure(tier, seed, part='structure'):
     from scipy.stats import norm
     from biogeme.native_draws import native_random_number_generators as cat
     fails, cases = [], 0
-    sizes = [(1, 2), (2, 4), (3, 10), (7, 50)] + ([(13, 200), (1, 1000), (50, 20)] if tier != 'quick' else [])
+    # the last four sizes give stratum counts (49, 98, 103, 107, 206, 214) at which 1.0 / (1.0 / N) rounds above N: a stratum grid
+    # built with a floating-point step has one point too many there
+    sizes = [(1, 2), (2, 4), (3, 10), (7, 50), (7, 14), (1, 206), (49, 2), (1, 214)] + ([(13, 200), (1, 1000), (50, 20), (1, 394), (7, 28)] if tier != 'quick' else [])
 
     def gen(key, n, r, s):
         np.random.seed(s)
@@ -89,7 +91,13 @@ def mode_structure(tier, seed, part='structure'):
     for (n, r) in sizes:
         for rep in range(2 if tier == 'quick' else 5):
             s = 1000 * seed + 17 * rep + n + r
-            out = {k: gen(k, n, r, s) for k in cat}
+            out = {}
+            for k in cat:
+                try:
+                    out[k] = gen(k, n, r, s)
+                except Exception as e:      # every size must be served
+                    cases += 1
+                    bad('every requested size is served (observations x draws array)', k, n, r, got=f'{type(e).__name__}: {str(e)[:120]}')
             for key, x in out.items():
                 cases += 1
                 if not isinstance(x, np.ndarray) or x.shape != (n, r):
@@ -113,11 +121,11 @@ def mode_structure(tier, seed, part='structure'):
                     want_first = gen(base_key, n, h, s)          # same seed, half the draws
                     if not np.allclose(first, want_first, rtol=1e-13, atol=1e-13):
                         bad('antithetic: first half is the plain scheme with R/2 draws', key, n, r)
-                if key.startswith('UNIFORMSYM'):
+                if key.startswith('UNIFORMSYM') and ('UNIFORM' + key[len('UNIFORMSYM'):]) in out:
                     unit = out['UNIFORM' + key[len('UNIFORMSYM'):]]
                     if not np.allclose(x, 2.0 * unit - 1.0, rtol=0, atol=1e-15):
                         bad('symmetric = 2u-1 of the unit scheme (same seed)', key, n, r)
-                if key in UNDERLYING and part == 'quantile':
+                if key in UNDERLYING and UNDERLYING[key] in out and part == 'quantile':
                     u = out[UNDERLYING[key]]
                     want = norm.ppf(u)
                     dev = np.abs(x - want) / np.maximum(1.0, np.abs(want))
